@@ -22,6 +22,14 @@ class C14(XsProp):
             'limits are raised and the same interpreter must evaluate a probe normally. The model mirrors the exact boundary (>= vs >). '
             'non-trivial = distinct (program, limits) pair where a limit was actually hit')
 
+    D41 = ('reverse stepping restores popped items without consulting the stack limit: after the limit is lowered, `rnext` can bring the '
+           'data stack above it (witness: recording on; `1 2 3 drop drop`; stack limit 1; two reverse steps -> three items)')
+
+    def known(self, text, impl, spec):
+        if 'limits 4014 ' in text and 'rnext' in text:
+            return self.D41
+        return None
+
     def generate(self, rng, tier):
         cs = []
         n = 500 if tier == 'quick' else 10000
@@ -94,6 +102,15 @@ class C14(XsProp):
             cs.append('xs limits %d %d - | eval %s | dump | limits %d %d %d | eval %s | dump' % (
                 rng.choice([3, 10, 50]), rng.choice([2, 5, 9]), hexsrc(a), rng.choice([3, 10, 50]), rng.choice([2, 5, 9]),
                 rng.choice([6, 7, 9]), hexsrc(b)))
+        # reverse steps give no instruction budget back (family added after round 11; marker `insnlimit N | rec on`): under a limit of
+        # N at most N forward steps succeed, however they are interleaved with reverse steps
+        for N_ in (1, 2, 3, 5):
+            for prog in ('1 2 3 4 5 6 7 8 9', 'begin 1 drop repeat', ': f 1 2 + drop ; f f f f'):
+                for pat in ('nrnrnrnrnrnrnrnrnrnr', 'nnnnnnnrnnrrnnnn', 'nnrrnnrrnnrrnnrrnn', 'nnnnnnnnrrrrrrrrnnnnnnnn'):
+                    cs.append(' | '.join(['xs insnlimit %d' % N_, 'rec on', 'compile %s' % hexsrc(prog)] + [('next' if ch == 'n' else 'rnext') for ch in pat]))
+        # recorded finding D41: reverse steps put popped items back without consulting the stack limit (marker `limits 4014`)
+        for src, S, k in [('1 2 3 drop drop', 1, 2), ('1 2 3 4 + + +', 2, 3), ('5 6 7 8 drop drop drop', 1, 3), ('[ 1 2 3 ] length drop 9', 0, 1)]:
+            cs.append(' | '.join(['xs limits 4014 - -', 'rec on', 'eval %s' % hexsrc(src), 'stack', 'stacklimit %d' % S] + ['rnext'] * k + ['stack']))
         return cs
 
     def nontrivial(self, line):
@@ -105,6 +122,23 @@ class C14(XsProp):
         for c, o in zip(cases, impl):
             steps = c.split(' | ')
             outs = o.split(' | ')
+            if c.startswith('xs insnlimit ') and len(steps) > 2 and steps[1] == 'rec on' and 'rnext' in steps:
+                if len(steps) == len(outs):
+                    n += 1
+                    N_ = int(steps[0].split()[-1])
+                    done = sum(1 for s_, o_ in zip(steps, outs) if s_ == 'next' and o_ == 'ok')
+                    if done > N_:
+                        fails.append(('case: %s\nresult: %s' % (c, o[:600]), '%d forward steps succeeded under an instruction limit of %d (reverse steps in between)' % (done, N_)))
+                continue
+            if c.startswith('xs limits 4014 '):
+                if len(steps) == len(outs):
+                    n += 1
+                    cnt = lambda x: len([t for t in x.strip('[] ').split(' ') if t])
+                    S_ = int(steps[4].split()[1])
+                    if cnt(outs[-1]) > max(S_, cnt(outs[3])):
+                        fails.append(('case: %s\nresult: %s' % (c, o[:600]),
+                                      'the data stack holds %d items after reverse steps under a stack limit of %d set at depth %d' % (cnt(outs[-1]), S_, cnt(outs[3]))))
+                continue
             if len(steps) != len(outs) or c in getattr(self, 'meta_expect', {}):
                 continue
             if c in getattr(self, 'refused', ()):
@@ -160,7 +194,7 @@ class C14(XsProp):
                 if outs[-2] != 'ok' and 'ELimit' in outs[-2]:
                     fails.append(('case: %s\nresult: %s' % (c, o[:1500]), 'still failing with a limit error after the limits were raised'))
         for c, o in zip(cases, impl):
-            if c.startswith('xs insnlimit '):
+            if c.startswith('xs insnlimit ') and ' | rec on | ' not in c:
                 ou = o.split(' | ')
                 N = int(c.split(' ')[2])
                 n += 1
